@@ -13,6 +13,21 @@ let rd_ccfg = function
 
 let rd_cookies v = rd_list (rd_pair rd_str rd_str) v
 
+let rd_hmap v = rd_list (rd_pair rd_str (rd_list rd_str)) v
+let rd_hcfgs v = rd_list (function
+    | L [name; pres; vals] ->
+      { Headers.h_name = rd_str name; h_preserve = rd_bool pres;
+        h_values = rd_list (function
+            | L [Y "secret"; x] -> Headers.SecretV (rd_str x)
+            | L [Y "claim"; c; p; pw] -> Headers.ClaimV (rd_str c, rd_str p, rd_opt rd_str pw)
+            | v -> raise (Bad ("bad header value " ^ to_string v))) vals }
+    | v -> raise (Bad ("bad header entry " ^ to_string v))) v
+let rd_csession v = rd_opt (function
+    | L [at; idt; rt; em; us; gs; pu; cr; ex] ->
+      { Headers.c_access = rd_str at; c_idtoken = rd_str idt; c_refresh = rd_str rt; c_email = rd_str em; c_user = rd_str us;
+        c_groups = rd_list rd_str gs; c_pref = rd_str pu; c_created = rd_opt rd_str cr; c_expires = rd_opt rd_str ex }
+    | v -> raise (Bad ("bad claim session " ^ to_string v))) v
+
 let rd_bign v = (match rd_z v with BinNums.Z0 -> BinNums.N0 | BinNums.Zpos p -> BinNums.Npos p | BinNums.Zneg _ -> raise (Bad "negative address"))
 
 let rd_breq = function
@@ -150,6 +165,17 @@ let register (reg : string -> (Sx.t list -> Sx.t) -> unit) : unit =
   reg "endpoint_allowed" (function
       | [h; p; allowed] -> wr_bool (Authz.is_endpoint_allowed (rd_str h) (rd_str p) (rd_list rd_str allowed))
       | _ -> raise (Bad "endpoint_allowed arity"));
+  (* ---- Headers ---- *)
+  reg "request_headers" (function
+      | [cfgs; sess; hmap; names] ->
+        let h = Headers.request_headers (rd_csession sess) (rd_hcfgs cfgs) (rd_hmap hmap) in
+        wr_list (fun n -> L [wr_str n; wr_list wr_str (Headers.hget n h)]) (rd_list rd_str names)
+      | _ -> raise (Bad "request_headers arity"));
+  reg "response_headers" (function
+      | [cfgs; sess; hmap; names] ->
+        let h = Headers.response_headers (rd_csession sess) (rd_hcfgs cfgs) (rd_hmap hmap) in
+        wr_list (fun n -> L [wr_str n; wr_list wr_str (Headers.hget n h)]) (rd_list rd_str names)
+      | _ -> raise (Bad "response_headers arity"));
   reg "split_host_port" (function
       | [x] -> wr_opt (wr_pair wr_str wr_str) (NetAddr.split_host_port (rd_str x))
       | _ -> raise (Bad "split_host_port arity"));
